@@ -437,6 +437,9 @@ def judge(o, model):
     if r == "no-dsp":
         return ("skip", "no-dsp")
     if not r.startswith("ok"):
+        m = re.search(r'"unexpected external call: ([^"]*)"', r)
+        if m:       # the generated program asked the host for an external the host does not provide: an error naming it
+            return ("refused", "at run time: host has no external function `" + m.group(1) + "`")
         return ("violation", f"generated Rust fails at run time ({r[:200]}) where the VM runs")
     if r != pc.norm_impl(vm):
         which = ""
@@ -484,7 +487,7 @@ def main(ctx, args):
                 c = json.load(open(os.path.join(cdir, fn)))
                 cases.append({"id": "corpus:" + fn[:-5], "src": c["src"], "sx": c.get("sx"), "inputs": c.get("inputs", []), "times": c.get("times", 8),
                               "expect": c.get("expect")})
-        plan = ([("scalar", 60), ("core", 100), ("deep", 30)] if ctx.tier == "quick" else
+        plan = ([("scalar", 30), ("core", 50), ("deep", 20)] if ctx.tier == "quick" else
                 [("scalar", 500), ("core", 900), ("deep", 300), ("closure_assign", 100), ("nolam", 100), ("notup", 100)])
         for prof, n in plan:
             cs, st = pc.gen_cases(ctx.seed, n, prof, times)
